@@ -76,6 +76,9 @@ func traceLines(evs []Ev, cap int, variant string, quiet bool, prompt []int) []s
 	}
 	lines := []string{fmt.Sprintf("reset fixed=%d cap=%d interval=%d", fixed, cap, intervalNs)}
 	for _, e := range evs {
+		if e.K == "open" { // monitor-only: a channel found open when a Close call returned
+			continue
+		}
 		lines = append(lines, e.Line())
 	}
 	if quiet {
@@ -335,7 +338,11 @@ func main() {
 	for _, c := range forcedCases(thorough || fl.Search) {
 		r.eval(c)
 	}
-	res.Exhaustive = true // over (hook point, subscriber position) x operation list of forcedCases
+	// 2b. overlapping and repeated Close calls
+	for _, c := range closeCases(cap, thorough || fl.Search) {
+		r.eval(c)
+	}
+	res.Exhaustive = true // over (hook point, subscriber position) x operation list of forcedCases / closeCases
 	// 3. random histories
 	n := 250
 	if thorough {
